@@ -138,6 +138,11 @@ func (s *streamWS) RecvMsg(m interface{}) error {
 
 		b, err := s.readMsg()
 		if err != nil {
+			if err == io.EOF {
+				// The connection went away without a close frame, possibly
+				// inside a frame header: not a clean end of stream.
+				err = io.ErrUnexpectedEOF
+			}
 			return err
 		}
 
